@@ -537,7 +537,7 @@ Proof.
   { intros x Hx. destruct H2 as [H2|[H2 H2']]; [left; congruence|right]. split; [congruence|]. eauto. }
   destruct (0 <? ar_acked_segments r).
   - assert (Hb : v_rto_retransmissions (acked_counts_as_sent s2) = v_rto_retransmissions s2).
-    { unfold acked_counts_as_sent. destruct (seq_gt _ _); vsimpl; reflexivity. }
+    { unfold acked_counts_as_sent. destruct (seq_gt _ _ && seq_lt _ _); vsimpl; reflexivity. }
     revert Hb. generalize (acked_counts_as_sent s2). intros s2b Hb.
     destruct (truncate_front (v_tx s2b) (ar_acked_bytes r)) as [tx1 tr]. destruct tr.
     + destruct (wake_writer tx1) as [tx2 w]. cbn [sbind]. cbv beta. intro H. apply Hgoal.
